@@ -326,6 +326,33 @@ func runC13(c *mon.Ctx) {
 					}
 				}
 			}
+			// a key ID with a comma in it (any string can be a key ID in this API): either HTTPRequest refuses to send it, or
+			// what it sends is read back
+			if tr.Chance(0.15) {
+				oddKey := gen.Pick(tr, []string{"ed25519:a,b", "ed25519:,", "ed25519:1,key=x"})
+				id3 := gen.NewIdentity(kr, origin, oddKey)
+				fr3 := fclient.NewFederationRequest(method, spec.ServerName(origin), spec.ServerName(dest), uri)
+				if body != nil {
+					_ = fr3.SetContent(spec.RawJSON(gen.Plain().Bytes(body)))
+				}
+				if err := fr3.Sign(spec.ServerName(origin), gmsl.KeyID(oddKey), id3.Priv); err == nil {
+					if hr3, err := fr3.HTTPRequest(); err == nil {
+						w := base.clone()
+						w.delHeader("Authorization")
+						for _, l := range hr3.Header.Values("Authorization") {
+							w.headers = append(w.headers, [2]string{"Authorization", l})
+						}
+						db3 := newMemKeyDB()
+						db3.set(origin, oddKey, id3.Pub, nowMs+24*3600*1000, 0)
+						c.Count("verified_comma_key_requests")
+						if g, code, _ := verify(w, &gmsl.KeyRing{KeyDatabase: db3}); g == nil || code != 200 {
+							c.Failf("verify:rejects-genuine:key-id-with-comma", "HTTPRequest sends a request signed with key %q as %q, which VerifyHTTPRequest cannot read back (code %d)", oddKey, hr3.Header.Values("Authorization"), code)
+						}
+					} else {
+						c.Count("comma_key_requests_refused_by_HTTPRequest")
+					}
+				}
+			}
 			// soundness: tamperings
 			tampers := map[string]func(w *wireReq) bool{
 				"method": func(w *wireReq) bool {
@@ -430,6 +457,40 @@ func runC13(c *mon.Ctx) {
 					return true
 				},
 				"header-lone-quote-member": func(w *wireReq) bool { w.setHeader("Authorization", xm.String()+",\""); return true },
+				// a parameter name is a token: white space that is not SP / HTAB around it makes the header malformed
+				"header-odd-space-around-param-name": func(w *wireReq) bool {
+					sp := gen.Pick(tr, []string{"\u00a0", "\u0085", "\u2003", "\u3000"})
+					h := xm.String()
+					if tr.Chance(0.5) {
+						h = strings.Replace(h, ",key=", ","+sp+"key=", 1)
+					} else {
+						h = strings.Replace(h, "origin=", "origin"+sp+"=", 1)
+					}
+					w.setHeader("Authorization", h)
+					return true
+				},
+				// every parameter occurs once: a second origin / destination / key / sig in front of the real one
+				"header-repeated-parameter": func(w *wireReq) bool {
+					decoy := gen.Pick(tr, []string{`origin="` + other + `"`, `destination="somewhere.else.example"`, `key="ed25519:zzz"`, `sig="AAAA"`})
+					w.setHeader("Authorization", "X-Matrix "+decoy+","+strings.TrimPrefix(xm.String(), "X-Matrix "))
+					return true
+				},
+				// several X-Matrix lines (one per key) all speak about one request: a line naming another destination,
+				// in front of the genuine one or behind it
+				"header-second-line-names-another-destination": func(w *wireReq) bool {
+					x := xm
+					x.dest, x.key, x.sig = gen.Pick(tr, []string{"not.mine.example", other}), "ed25519:zzz", "AAAA"
+					if multiLocal && x.dest == other {
+						x.dest = "not.mine.example"
+					}
+					if tr.Chance(0.7) {
+						w.delHeader("Authorization")
+						w.headers = append(w.headers, [2]string{"Authorization", x.String()}, [2]string{"Authorization", xm.String()})
+					} else {
+						w.headers = append(w.headers, [2]string{"Authorization", x.String()})
+					}
+					return true
+				},
 				"header-conflicting-origins": func(w *wireReq) bool {
 					x := xm
 					x.origin = other
